@@ -4,7 +4,7 @@
    (well-formed raw paths, valid task list) are evaluated on every path and tree the
    implementation produces during the correspondence runs (monitored premises, DESIGN C01). *)
 From KV Require Import Base Params Sort Weave WeaveProofs WeaveCheck PathProofs AssemblyProofs Api RunIntegrityProofs.
-From KV Require Pipeline CladeTasks TreeSchedule TreeAssembly.
+From KV Require Pipeline CladeTasks TreeSchedule TreeAssembly TreePaths.
 Local Open Scope nat_scope.
 
 (* make_linear_sequence: deleting the gap characters of the row built from any gap vector gives
@@ -149,6 +149,34 @@ Example C01_every_guide_tree_nonvacuous :
   map TreeAssembly.strip tasks = Pipeline.sort_tasks (Pipeline.tasks_of (fst (Pipeline.label t 3))) /\
   TreeAssembly.fits_runb seqs (st0 seqs) tasks = true /\ CladeTasks.leaves t = [0; 1; 2].
 Proof. vm_compute. repeat split; reflexivity. Qed.
+
+(* One more step towards the code: the task list is BUILT (TreePaths.build_tasks) from the schedule of the guide tree
+   and one raw path per merge - what the DP kernels hand to add_gap_info - each required only to be well-formed
+   (kpath_wfb) for the widths the two groups have at that moment.  For EVERY guide tree and EVERY such family of raw
+   paths the alignment reproduces every sequence, has rows of one length and no all-gap column.  The only premise left
+   about the numeric core is kpath_wfb with the right dimensions; it is monitored on every merge of every observed run
+   (keys wf / dims of the correspondence). *)
+Theorem C01_integrity_for_every_guide_tree_and_wf_path : forall seqs,
+  Forall (Forall (fun c => c <> dash)) seqs ->
+  forall t, NoDup (CladeTasks.leaves t) -> (forall i, In i (CladeTasks.leaves t) <-> i < length seqs) ->
+  forall paths tasks,
+  TreePaths.build_tasks seqs (st0 seqs) (Pipeline.sort_tasks (Pipeline.tasks_of (fst (Pipeline.label t (length seqs))))) paths = Some tasks ->
+  let final := run_from (st0 seqs) tasks in
+  (forall i, i < length seqs -> degap (row_of seqs final i) = nth i seqs []) /\
+  exists w, (forall i, i < length seqs -> length (row_of seqs final i) = w) /\
+            (forall j, j < w -> exists i, i < length seqs /\ nth j (row_of seqs final i) dash <> dash).
+Proof. exact TreePaths.integrity_every_tree_every_wf_path. Qed.
+Print Assumptions C01_integrity_for_every_guide_tree_and_wf_path.
+
+(* non-vacuity: the raw paths of the observed run (Properties_C10) build exactly its task list *)
+Example C01_build_tasks_nonvacuous :
+  let seqs := [[67;71;84;65;67;71;84;84;71;65;67;67;65;71;71]; [65;67;71;84;65;67;71;84;84;71;65;67;67;65];
+               [65;67;71;84;67;71;84;84;84;71;65;67;65]]%Z in
+  let t := Pipeline.UNode (Pipeline.UNode (Pipeline.ULeaf 0) (Pipeline.ULeaf 1)) (Pipeline.ULeaf 2) in
+  TreePaths.build_tasks seqs (st0 seqs) (Pipeline.sort_tasks (Pipeline.tasks_of (fst (Pipeline.label t 3))))
+    [[2;3;4;5;6;7;8;9;10;11;12;13;-1;-1;14]; [1;2;3;4;5;6;7;8;9;10;11;12;-1;-1;-1;13]]%Z =
+  Some [(0, 1, 3, [33;0;0;0;0;0;0;0;0;0;0;0;0;2;2;0]%Z); (3, 2, 4, [0;0;0;0;0;0;0;0;0;0;0;0;2;2;2;0]%Z)].
+Proof. vm_compute. reflexivity. Qed.
 
 Example C01_schedule_nonvacuous :
   let t := Pipeline.UNode (Pipeline.UNode (Pipeline.ULeaf 3) (Pipeline.ULeaf 0)) (Pipeline.UNode (Pipeline.ULeaf 2) (Pipeline.UNode (Pipeline.ULeaf 1) (Pipeline.ULeaf 4))) in
